@@ -57,6 +57,19 @@ Fixpoint wf_t (t : tmpl) : Prop :=
   | TCustom _ _ => True
   end.
 
+(* what the library enforces when it builds the specification (Choices._on_bound, Float._on_bound, geno.Choices) *)
+Fixpoint hwf (t : tmpl) : bool :=
+  match t with
+  | TLeaf _ => true
+  | TDict kvs => forallb (fun kv => hwf (snd kv)) kvs
+  | TObj _ kvs => forallb (fun kv => hwf (snd kv)) kvs
+  | TList ts => forallb hwf ts
+  | TOneOf cands _ => (1 <=? length cands) && forallb hwf cands
+  | TManyOf k cands d _ _ => (1 <=? k) && (1 <=? length cands) && (negb d || (k <=? length cands)) && forallb hwf cands
+  | TFloat lo hi _ => (lo <=? hi)%Z
+  | TCustom _ _ => true
+  end.
+
 Section Spec.
   Variable cdec : nat -> str -> result tmpl.
   Variable w : tmpl -> bool.
